@@ -125,3 +125,48 @@ def groupby_on_sorted_input(ctx, rule, qualnames):
                    'mapping, the later group replaces the earlier one and its members are lost',
                    key=f"groupby on unsorted input in {q.split('.')[-1]}")
     ctx.count('groupby_calls', n)
+
+
+ARRAY_MAKERS = ('numpy.array', 'np.array', 'numpy.zeros', 'np.zeros', 'numpy.ones', 'np.ones', 'numpy.full', 'np.full',
+                'numpy.asarray', 'np.asarray', 'numpy.roll', 'np.roll', 'numpy.identity', 'np.identity', 'numpy.eye', 'np.eye')
+
+
+def cached_arrays_not_updated_in_place(ctx, rule, qualnames):
+    """A numpy array kept in a look-up dictionary (one row of coefficients per denominator unit, reused for the next
+    solute) is shared by every later reader: `row *= c` / `row -= x` on a name bound to such an entry changes the entry
+    itself, so the next solute starts from the scaled row."""
+    model = ctx.model
+    n = 0
+    for q in qualnames:
+        fi = model.func(q)
+        defs, stored_in, read_from = {}, {}, {}
+        for st in ast.walk(fi.node):
+            if isinstance(st, ast.Assign) and len(st.targets) == 1:
+                t, v = st.targets[0], st.value
+                if isinstance(t, ast.Name):
+                    defs.setdefault(t.id, []).append(v)
+                    if isinstance(v, ast.Subscript) and isinstance(v.value, ast.Name):
+                        read_from.setdefault(t.id, set()).add(v.value.id)
+                if isinstance(t, ast.Subscript) and isinstance(t.value, ast.Name) and isinstance(v, ast.Name):
+                    stored_in.setdefault(v.id, set()).add(t.value.id)
+
+        def is_array(name):
+            return any(isinstance(v, ast.Call) and ast.unparse(v.func) in ARRAY_MAKERS for v in defs.get(name, []))
+
+        def holds_arrays(dname):
+            return any(dname in ds and is_array(nm) for nm, ds in stored_in.items())
+        for st in ast.walk(fi.node):
+            if not (isinstance(st, ast.AugAssign) and isinstance(st.target, ast.Name)):
+                continue
+            nm = st.target.id
+            shared = {d for d in stored_in.get(nm, set()) if is_array(nm)} | \
+                {d for d in read_from.get(nm, set()) if holds_arrays(d)}
+            if not (is_array(nm) or shared):
+                continue
+            n += 1
+            ctx.ob(rule, fi, st.lineno, f"{q}: `{ast.unparse(st)[:50]}` does not update an array that is kept for reuse",
+                   not shared, fact=(f"`{nm}` is an entry of {sorted(shared)}" if shared else f"`{nm}` is a private array"),
+                   why='the augmented assignment changes the array in the look-up table itself: the next reader (the next '
+                       'solute with the same denominator unit) starts from the modified row',
+                   key=f"in-place update of a cached array: {nm}")
+    ctx.count('augmented_array_updates', n)
